@@ -28,6 +28,8 @@ TOL_BOOT = 1e-6
 def generate(seed: int, tier: str = "quick") -> dict:
     rng = seeds.stream(seed, "cfg")
     spec, cfg = common.draw_system(rng, seed, PROP)
+    # bitwise ambient-sensitivity trial (DESIGN 6.1) on a third of the eager runs of seeded classes
+    cfg["ambient_trial"] = (not cfg["lazy"]) and "random_state" in cfg["params"] and seeds.stream(seed, "trial").random() < 0.33
     cfg["ops"] = generate_ops(seeds.stream(seed, "ops"), cfg, spec, tier)
     return cfg
 
@@ -102,6 +104,39 @@ def generate_ops(rng, cfg, spec, tier) -> list[dict]:
 # ----------------------------------------------------------------------------------------------
 # execution
 # ----------------------------------------------------------------------------------------------
+def _ambient_trial(cfg, spec, fit_id) -> tuple[str, str]:
+    """A/A'/A'' under one ambient RNG state, B/B' under another: with an integer random_state the fit must be
+    bit-identical across ambient states. Returns (verdict, detail); verdict in ok | inconclusive | violation."""
+    import random as _random
+
+    import numpy as _np
+
+    def one(state):
+        _np.random.seed(state)
+        _random.seed(state)
+        env = models.Env(cfg["descs"])
+        m = spec.cls()(**copy.deepcopy(cfg["params"]))
+        out = oracle.capture(models.fit_model, spec, m, cfg["fits"][fit_id], env)
+        if not out.ok:
+            return None
+        data = getattr(m, "data", {})
+        keys = sorted(k for k in data if not str(k).startswith("input_data"))
+        vals = [data[k] for k in keys]
+        return oracle.digest([oracle.materialise(v) if not isinstance(v, list) else [oracle.materialise(x) for x in v] for v in vals])
+
+    with core.reference_context():
+        a = [one(1234567), one(1234567), one(1234567)]
+        b = [one(7654321), one(7654321)]
+    if None in a or None in b:
+        return "inconclusive", "a trial fit raised"
+    if len(set(a)) != 1 or len(set(b)) != 1:
+        return "inconclusive", "identical fits under one ambient state are not bit-identical (floating-point noise)"
+    if a[0] != b[0]:
+        return "violation", ("five fresh fits with the same integer random_state: three under one global-RNG state are "
+                             "bit-identical, two under another state are bit-identical, but the two groups differ")
+    return "ok", ""
+
+
 class _Refs:
     """Fresh-model references, memoised per run. Every reference gets its own Env (fresh objects)."""
 
@@ -267,6 +302,13 @@ def execute(cfg: dict, *, stop_at_first=True, trace=False) -> RunResult:
                 elif out.ok:
                     st["m_fit"] = op["fit"]
                     st["m_computed"] = bool(cfg["params"].get("compute", True))
+                    if cfg.get("ambient_trial") and not counts.get("ambient_trials"):
+                        verdict, why = _ambient_trial(cfg, spec, op["fit"])
+                        counts["ambient_trials"] = 1
+                        counts[f"ambient_trial_{verdict}"] = 1
+                        res.log.append(f"  ambient trial -> {verdict}")
+                        if verdict == "violation":
+                            violate("AMBIENT", "global-rng", why, op)
                     probe(op, k=3, inv="H2" if counts["refits"] else "H1")
                 else:
                     counts["failed_fits"] += 1
